@@ -267,6 +267,15 @@ def run(chk):
                 bad.append((n, "builds a set: iteration order depends on PYTHONHASHSEED"))
             if isinstance(n, (ast.Global, ast.Nonlocal)):
                 bad.append((n, "declares global state"))
+            # no memory between calls: the placement functions neither write instance state nor mutate an attribute's object
+            if f.name not in ("get_node", "murmur3_32", "_make_client_key", "normalize_server_spec"):
+                continue
+            if isinstance(n, ast.Attribute) and isinstance(n.ctx, (ast.Store, ast.Del)) and isinstance(n.value, ast.Name) and n.value.id == "self":
+                bad.append((n, "writes self.%s: the answer can depend on earlier calls" % n.attr))
+            if isinstance(n, ast.Subscript) and isinstance(n.ctx, (ast.Store, ast.Del)) and is_self_attr(n.value):
+                bad.append((n, "writes into self.%s: the answer can depend on earlier calls" % n.value.attr))
+            if isinstance(n, ast.Call) and isinstance(n.func, ast.Attribute) and is_self_attr(n.func.value) and n.func.attr in ("append", "add", "update", "setdefault", "pop", "popitem", "clear", "insert", "remove", "extend", "move_to_end", "cache_clear"):
+                bad.append((n, "mutates self.%s: the answer can depend on earlier calls" % n.func.value.attr))
             if isinstance(n, ast.Name) and isinstance(n.ctx, ast.Load) and n.id in f.module.assigns and isinstance(f.module.assigns[n.id], (ast.List, ast.Dict, ast.Set, ast.Call)) and f.name in ("get_node", "murmur3_32", "_make_client_key"):
                 bad.append((n, "reads the module-level mutable `%s`" % n.id))
         for n, what in bad:
@@ -409,7 +418,7 @@ def run(chk):
             dom = MemberDomain(prog, f, member, p)
             outs = Interp(dom, f.node, prog).run(Env({p: Opaque("the-node")}))
             for s_, v, t in outs.of("ret"):
-                n_mut = s_.get("mut", 0)
+                n_mut = s_.get("#mut", 0)
                 if op == "append":
                     want = 0 if member else 1
                     r4.expect(n_mut == want and not dom.bad, "add_node(%s present): %d append(s)" % ("already" if member else "not yet", want), "RendezvousHash.add_node:membership-guard", "add_node performs %d append(s)%s when the node is %s in the rotation: the rotation stops behaving like a set (a duplicate entry survives one remove_node, so placement depends on history)" % (n_mut, " of something other than the given node" if dom.bad else "", "already" if member else "not yet"), fn=f, witness=fmt_trace(t))
@@ -417,7 +426,7 @@ def run(chk):
                     r4.expect(member and n_mut == 1 and not dom.bad, "remove_node(present): removed once", "RendezvousHash.remove_node:membership-guard", "remove_node returns normally having performed %d removal(s)%s although the node is %s the rotation" % (n_mut, " of something other than the given node" if dom.bad else "", "in" if member else "not in"), fn=f, witness=fmt_trace(t))
             for s_, e_, t in outs.of("exc"):
                 if op == "remove" and not member:
-                    r4.expect(s_.get("mut", 0) == 0, "remove_node(absent) raises without touching the rotation", "RendezvousHash.remove_node:mutates-before-raising", "remove_node raises for an absent node after already changing the rotation", fn=f, witness=fmt_trace(t))
+                    r4.expect(s_.get("#mut", 0) == 0, "remove_node(absent) raises without touching the rotation", "RendezvousHash.remove_node:mutates-before-raising", "remove_node raises for an absent node after already changing the rotation", fn=f, witness=fmt_trace(t))
                 elif e_.cls not in (None,) or True:
                     if not (op == "remove" and member and e_.cls == "ValueError" and e_.origin and False):
                         r4.fail("RendezvousHash.%s:raises" % f.name, "%s raises %s when the node is %s the rotation" % (f.qualname, e_, "in" if member else "not in"), fn=f, witness=fmt_trace(t))
@@ -486,7 +495,7 @@ class MemberDomain(Domain):
             if fval[1] in ("append", "remove"):
                 if not args or args[0] != Opaque("the-node"):
                     self.bad.append(node)
-                st = state.set("mut", state.get("mut", 0) + 1)
+                st = state.set("#mut", state.get("#mut", 0) + 1)
                 if fval[1] == "remove" and not self.member:
                     return [("exc", Exc(ORD, "ValueError", node.lineno), state)]
                 return [("ok", NONE, st)]
